@@ -1876,10 +1876,17 @@ impl<'a> Sim<'a> {
             let extra: Vec<&String> = got.iter().filter(|g| !want.contains(g)).collect();
             let missing: Vec<&String> = want.iter().filter(|w| !got.contains(w)).collect();
             let sig = if !extra.is_empty() { "deposit-without-backing-action" } else { "deposit-missing" };
+            // C18: a received packet that was refused must register no deposit
+            if !extra.is_empty() && self.model.recv_predictions.iter().any(|p| !p.3) {
+                self.viol.push("C18", "refused-packet-left-deposit", "deposit-after-error-ack", self.step, format!("h={h}: a block whose received packet(s) could not be applied stores deposits nobody backed: {extra:?}"));
+            }
             self.viol.push("C04", "deposits-differ-from-reference", sig, self.step, format!("h={h}: stored deposits not backed by a successful lock/transfer: {extra:?}; credits without deposit: {missing:?}"));
         }
         // deposit events must correspond one-to-one as well
         let ev_count: usize = resp.tx_results.iter().map(|r| r.events.iter().filter(|e| e.kind == "tx.deposit").count()).sum();
+        if ev_count > want.len() && self.model.recv_predictions.iter().any(|p| !p.3) {
+            self.viol.push("C18", "refused-packet-left-deposit", "deposit-event-after-error-ack", self.step, format!("h={h}: {ev_count} tx.deposit events for {} backed deposits in a block with a refused packet", want.len()));
+        }
         if ev_count != want.len() && !self.model.unmodelled.contains("ibc") {
             self.viol.push("C04", "deposit-events-differ", "tx.deposit-events", self.step, format!("h={h}: {ev_count} tx.deposit events for {} expected deposits", want.len()));
         }
